@@ -23,7 +23,8 @@
 (*  O3  well formed input + conforming destination without transient       *)
 (*      failures => success.  Not demanded when the destination refused    *)
 (*      the single request upload and the source cannot be rewound (no     *)
-(*      client can succeed then), and not when the destination both        *)
+(*      client can succeed then; the same when it redirected that request, *)
+(*      which also means sending the body twice), and not when it both     *)
 (*      enforces a minimum chunk length and accepts chunks partially (a    *)
 (*      combination the distribution spec does not describe).              *)
 (*                                                                         *)
@@ -108,6 +109,15 @@ PGet(e) ==
   /\ nfault' = Count(e)
   /\ hbad' = First(hbad, << <<e.status = 204 /\ e.rng # off - 1, "status-range">> >>)
   /\ UNCHANGED <<h, off, open, short, nonconf, refused, bad>>
+
+\* ---- a request answered with a redirect (307 / 308) to another URL of the destination: nothing
+\* happens to the session.  A redirected single request upload has to be sent a second time, which a
+\* source that cannot be rewound does not allow: for O3 it counts like a refused single request
+\* upload (no client can succeed then).
+PRedir(e) ==
+  /\ refused' = (refused \/ (e.method = "PUT" /\ e.n > 0))
+  /\ hbad' = First(hbad, << <<e.status \notin {307, 308} /\ ~(e.method = "GET" /\ e.status \in {301, 302, 303}), "redirect-status">> >>)
+  /\ UNCHANGED <<h, off, open, short, nfault, nonconf, bad>>
 
 PDelete(e) == open' = FALSE /\ UNCHANGED <<h, off, short, nfault, nonconf, refused, bad, hbad>>
 \* requests that never became part of the session (broken by the transport, unknown session)
